@@ -91,7 +91,7 @@ class Identifier(Node):
 
         self.parsed = [[
             i for i, j in utility.pairwise(part)
-            if i != ' ' or (j and '?' not in j)
+            if i != ' ' or (j and not (len(j) == 3 and j[0] == j[2] == '?'))
         ] for part in parsed]
         return self
 
